@@ -24,7 +24,8 @@ BOUNDS = {
     "quick": "object-level seam (Connection_Manager.request): programs W|R, WR|WR, B(w,r)|B(w,r), private elements, 3 threads W|W|R at "
              "lock granularity; line granularity (G1) with preemption bound 2 for 2 threads, bound 1 for 3 threads; full stack "
              "(logix.process incl. Register) bound 1",
-    "thorough": "same programs + bundles of 3 and tag a[4]; G1 bound 3 for the single-request programs, bound 2 for all; full stack bound 2",
+    "thorough": "same programs + bundles of 3 and WW|RR; line granularity bound 2 for the single-request programs and bound 1 for the "
+                "others; lock granularity bound 3 (W|R) / 2; full stack (incl. cold start) lock granularity bound 2, line granularity bound 1",
 }
 ASSUMPTIONS = [
     "CPython runs C-level list slice copy / slice assignment from a list atomically (GIL); every Python-level line around them is a "
@@ -559,9 +560,14 @@ def plan(tier):
         return [("W|R", "cm", "G1", 2), ("B|B", "cm", "G0", 2), ("B|B", "cm", "G1", 1), ("WR|WR", "cm", "G1", 1), ("B|R", "cm", "G1", 1),
                 ("private", "cm", "G1", 1), ("W|W|R", "cm", "G0", 1), ("W|R", "frame", "G1", 1), ("B|B", "frame", "G0", 1),
                 ("cold", "frame", "G1", 1)]
-    return [("W|R", "cm", "G1", 3), ("WR|WR", "cm", "G1", 2), ("B|B", "cm", "G1", 2), ("B|R", "cm", "G1", 2), ("B3|B3", "cm", "G0", 2),
-            ("WW|RR", "cm", "G1", 2), ("private", "cm", "G1", 2), ("W|W|R", "cm", "G0", 2), ("W|W|R", "cm", "G1", 1),
-            ("W|R", "frame", "G1", 2), ("B|B", "frame", "G0", 2), ("WR|WR", "frame", "G0", 2), ("cold", "frame", "G1", 2)]
+    # executions grow like points^bound / bound!: line granularity (G1, 300-900 points per program) gets bound 2 only for the
+    # single-request programs; lock granularity (G0, 120-500 points) gets the higher bound
+    return [("W|R", "cm", "G1", 2), ("W|R", "cm", "G0", 3), ("B|R", "cm", "G1", 2),
+            ("WR|WR", "cm", "G1", 1), ("WR|WR", "cm", "G0", 2), ("B|B", "cm", "G1", 1), ("B|B", "cm", "G0", 2),
+            ("B3|B3", "cm", "G1", 1), ("B3|B3", "cm", "G0", 1), ("WW|RR", "cm", "G1", 1), ("WW|RR", "cm", "G0", 2),
+            ("private", "cm", "G1", 1), ("private", "cm", "G0", 2), ("W|W|R", "cm", "G0", 2), ("W|W|R", "cm", "G1", 1),
+            ("W|R", "frame", "G1", 1), ("W|R", "frame", "G0", 2), ("B|B", "frame", "G0", 1), ("WR|WR", "frame", "G0", 1),
+            ("cold", "frame", "G1", 1), ("cold", "frame", "G0", 2)]
 
 
 def run(ctx):
